@@ -177,6 +177,85 @@ def copyTo (s : St) (t other : Dense) : Res (St × Dense) := do
     if other.dt != t.dt then throwPanic "Cannot copy different types" else copyDense s other t
   else throwErr "NYI views"
 
+/-- `hasDefaultLayout()`: the storage window holds exactly the tensor's elements, under the default strides of its
+    shape and order flag (`AP.calcStrides`) -/
+def hasDefaultLayout (t : Dense) : Bool :=
+  (t.win.len : Int) == totalSize t.shape && t.ap.strides == defaultStrides t.ap.o.col t.shape
+
+/-- `compacted()`: `newDenseLike(t.e, t.t, t)` (a fresh zeroed array of `Size()` cells, default strides of the
+    tensor's data order, order flag only) filled by `copyDenseIter` -/
+def compacted (s : St) (t : Dense) : Res (St × Dense) := do
+  let n := if t.shape.isEmpty then 1 else (totalSize t.shape).toNat
+  let (s, r) := fresh s t.dt t.shape t.ap.o.col (Array.replicate n Val.zero) t.eng
+  copyDenseIter s r t
+
+/-- `compact()`: the tensor takes over the array, the mask and the order flags of its compacted copy;
+    `setShape(shape...)` installs the default strides -/
+def compact (s : St) (t : Dense) : Res (St × Dense) := do
+  let (s, p) ← compacted s t
+  pure (s, { t with win := p.win, mask := p.mask, ap := { t.ap with o := p.ap.o, strides := p.ap.strides, fin := true } })
+
+/-- `isDefaultLayout(ap, n)`: an array of `n` cells read through `ap` is exactly the elements `ap` describes, under
+    the default strides of its shape and order flag -/
+def isDefaultLayout (ap : AP) (n : Nat) : Bool :=
+  (n : Int) == totalSize ap.shape && ap.strides == defaultStrides ap.o.col ap.shape
+
+/-- `for i, d := range expShape { if d != 1 && i < len(expStrides) && i < len(strides) { expStrides[i] = strides[i] } }` -/
+def vectorKeepStrides : Shape → List Int → List Int → List Int
+  | d :: ds, e :: es, s :: ss => (if d != 1 then s else e) :: vectorKeepStrides ds es ss
+  | _, es, _ => es
+
+/-- `(*Dense).Transpose()`: physically move the data of a pending lazy transpose. -/
+def transpose (s : St) (t : Dense) : Res (St × Dense) := do
+  match t.old with
+  | none => pure (s, t)
+  | some o =>
+    if isScalar t.shape then pure (s, t) else
+    let exp := defaultStrides t.ap.o.col t.shape
+    let done : Dense := { t with ap := { t.ap with strides := copyPrefix t.ap.strides exp }, old := none, tw := none }
+    -- the tensor owns its data, but the array is not in the default layout of the shape it had before `T()` (the
+    -- clone of a non-contiguous view, the `SafeT()` of a transposed tensor): `compact()` collects the elements by
+    -- coordinate, under the current pattern, into a new array; neither engine is asked
+    if !t.view && !isDefaultLayout o t.win.len then do
+      let (s, c) ← compact s t
+      pure (s, { c with ap := { c.ap with strides := copyPrefix c.ap.strides exp }, old := none, tw := none })
+    else
+    -- a vector: no data movement, the axis that holds the elements keeps the stride it has
+    if isVector t.shape then
+      pure (s, { done with ap := { t.ap with strides := copyPrefix t.ap.strides (vectorKeepStrides t.shape exp t.ap.strides) } })
+    else
+    let s ← gatherCopyMask s t
+    let s ← gatherCopy s t
+    pure (s, done)
+
+/-- `UT()` -/
+def ut (t : Dense) : Dense :=
+  match t.old with
+  | some o => { t with ap := o, old := none, tw := none }
+  | none => t
+
+/-- `T(axes...)` -/
+def T (s : St) (t : Dense) (axes : List Int) : Res (St × Dense) := do
+  match ← t.ap.T axes with
+  | .noop _ _ => pure (s, t)
+  | .ok transform axes =>
+    match t.old with
+    | none => pure (s, { t with old := some t.ap, tw := some axes, ap := transform })
+    | some _ =>
+      if isVector t.shape then pure (s, t.ut) else
+      -- "is this the undo of the pending transpose?": transposeWith[axes[i]] == i for all i
+      let tw := t.tw.getD []
+      let isReversed := axes.length == tw.length &&
+        (List.range axes.length).all (fun i => match axes[i]? with
+          | some a => decide (0 ≤ a) && getI? tw a == some (Int.ofNat i)
+          | none => false)
+      if isReversed then pure (s, t.ut) else
+      let (s, t') ← transpose s t
+      -- the data has moved: the transform is recomputed from the materialised pattern
+      match ← t'.ap.T axes with
+      | .noop _ _ => pure (s, t')
+      | .ok transform axes => pure (s, { t' with old := some t'.ap, tw := some axes, ap := transform })
+
 inductive ReshapeRes where
   | ok (s : St) (t : Dense)
   | errKept (t : Dense)          -- an error is returned and the tensor is as given
@@ -187,6 +266,8 @@ def reshape (s : St) (t : Dense) (dims : List Int) : Res ReshapeRes := do
   if totalSize t.shape != totalSize dims then return .errKept t
   if t.view && t.ap.o.nonContig then return .errKept t
   let (s, t) ← (if t.old.isSome then transpose s t else pure (s, t) : Res (St × Dense))
+  -- a tensor that owns its data but does not hold it in the default layout of its shape is compacted first
+  let (s, t) ← (if !t.view && !t.hasDefaultLayout then compact s t else pure (s, t) : Res (St × Dense))
   -- setShape: new shape, default strides for the order; flags kept
   let t' : Dense := { t with ap := { t.ap with shape := dims, strides := if dims.isEmpty then [] else defaultStrides t.ap.o.col dims, fin := true } }
   -- sanity(): non-view, non-scalar: len must equal size
